@@ -43,6 +43,9 @@ M = [
  ("C08-idreuse-fix-reverted", "C08", "src/mygrad/_utils/lock_management.py",
   "            if view_arr is None or view_arr.base is not arr:", "            if view_arr is None:",
   "stale waiting entries are honoured again (needs id reuse to manifest)"),
+ ("C08-stale-count-fix-reverted", "C08", "src/mygrad/_utils/lock_management.py",
+  "    if not array_is_tracked(arr):\n        # e.g. a natively read-only array. A lock-count that was left behind\n        # under this ID by an array that no longer exists must not be applied\n        # to it.\n        return\n", "",
+  "a stale lock count of a dead array is applied to a natively read-only array with the same id (fix 13 reverted; needs id reuse)"),
  ("C09-no-invalid-backprop-check", "C09", "src/mygrad/operation_base.py",
   "            if not var._ops:\n", "            if not var._ops and var._creator is not None:\n",
   "cleared leaves no longer trigger InvalidBackprop"),
